@@ -27,7 +27,6 @@ import (
 	"errors"
 	"fmt"
 	"net"
-	"sort"
 	"strconv"
 	"strings"
 	"sync"
@@ -53,6 +52,10 @@ import (
 
 const rcptDomain = "example.invalid"
 
+var domainNames = []string{rcptDomain, "second.invalid"}
+
+func mxName(dom, i int) string { return fmt.Sprintf("mx%d.%s", i+1, domainNames[dom]) }
+
 // ---------------------------------------------------------------- PKI (once per process)
 
 type mxCerts struct {
@@ -64,7 +67,7 @@ type mxCerts struct {
 type pkiT struct {
 	root, inter, strangerCA *certs.CA
 	stranger                *certs.Leaf
-	mx                      [2]mxCerts
+	mx                      [4]mxCerts
 }
 
 var certKinds = []string{"valid", "selfsigned", "wrongname", "expired"}
@@ -82,7 +85,7 @@ func getPKI() *pkiT {
 		p.strangerCA = certs.NewCA("c05 unrelated CA")
 		p.stranger = p.strangerCA.Leaf(certs.LeafOpts{DNSNames: []string{"stranger." + rcptDomain}})
 		for i := range p.mx {
-			name := fmt.Sprintf("mx%d.%s", i+1, rcptDomain)
+			name := mxName(i/2, i%2)
 			m := mxCerts{name: name, certs: map[string]tls.Certificate{}, chain: map[string][]*x509.Certificate{}}
 			valid := p.inter.Leaf(certs.LeafOpts{DNSNames: []string{name}})
 			expired := p.inter.Leaf(certs.LeafOpts{DNSNames: []string{name}, NotAfter: time.Now().Add(-48 * time.Hour)})
@@ -129,6 +132,27 @@ type msgFlags struct {
 	Req  bool `json:"requiretls"`
 	Ovr  bool `json:"tls_required_no"`
 	Quar bool `json:"quarantine"`
+	// Rcpts: recipient domains (indices into scenario.Domains) in RCPT order; nil = [0].
+	Rcpts []int `json:"rcpt_domains,omitempty"`
+}
+
+func (f msgFlags) rcpts() []int {
+	if len(f.Rcpts) == 0 {
+		return []int{0}
+	}
+	return f.Rcpts
+}
+
+// domainFacts: what DNS / MTA-STS publish for one recipient domain.
+type domainFacts struct {
+	Name  string    `json:"name"`
+	MXAD  bool      `json:"mx_ad"`
+	MXErr bool      `json:"mx_servfail,omitempty"`
+	STS   string    `json:"sts"` // none | testing | enforce
+	MXs   []mxFacts `json:"mxs"`
+	// STSGate (two-domain directed scenario only): the MTA-STS fetch for this
+	// domain does not return before the fetch for the other domain was started.
+	STSGate bool `json:"sts_fetch_slow,omitempty"`
 }
 
 func (f msgFlags) String() string {
@@ -154,18 +178,61 @@ type scenario struct {
 	MinMX                       int // 0 none 1 mtasts 2 dnssec
 	AllowOverride               bool
 	Relaxed                     bool
-	MXAD                        bool
-	MXErr                       bool
-	STS                         string // none | testing | enforce
-	MXs                         []mxFacts
+	Domains                     []domainFacts
 	Msgs                        []msgFlags
 }
 
 var tlsLevelNames = []string{"none", "encrypted", "authenticated"}
 var mxLevelNames = []string{"none", "mtasts", "dnssec"}
 
-func genScenario(p *prng.R) *scenario {
-	sc := &scenario{}
+func genMX(p *prng.R, dom, i int, pref uint16) mxFacts {
+	m := mxFacts{idx: dom*2 + i, Name: mxName(dom, i), Pref: pref}
+	m.Down = p.Chance(5, 100)
+	m.StartTLS = []string{"ok", "none", "handshake", "reply454"}[p.Weighted([]int{65, 20, 8, 7})]
+	m.Cert = certKinds[p.Weighted([]int{50, 20, 15, 15})]
+	m.ReqTLS = p.Chance(60, 100)
+	m.AAD = p.Chance(70, 100)
+	m.AErr = p.Chance(3, 100)
+	m.TLSA = []string{"absent", "nodata", "servfail", "records"}[p.Weighted([]int{25, 5, 8, 62})]
+	m.TLSAAD = p.Chance(85, 100)
+	if m.TLSA == "records" {
+		n := 1 + p.Weighted([]int{65, 35})
+		for j := 0; j < n; j++ {
+			r := tlsaRec{}
+			r.Usage = []uint8{0, 1, 2, 3, 4}[p.Weighted([]int{5, 8, 30, 50, 7})]
+			r.Sel = []uint8{0, 1, 2}[p.Weighted([]int{35, 60, 5})]
+			r.MT = []uint8{0, 1, 2, 3}[p.Weighted([]int{10, 65, 20, 5})]
+			switch r.Usage {
+			case 2:
+				r.Data = []string{"inter", "strangerCA", "leaf"}[p.Weighted([]int{65, 25, 10})]
+			default:
+				r.Data = []string{"leaf", "stranger", "inter"}[p.Weighted([]int{65, 25, 10})]
+			}
+			m.TLSARecs = append(m.TLSARecs, r)
+		}
+	}
+	m.STSMatch = p.Chance(70, 100)
+	m.DotCode = []int{250, 451, 554}[p.Weighted([]int{90, 5, 5})]
+	return m
+}
+
+func genDomain(p *prng.R, dom int) domainFacts {
+	d := domainFacts{Name: domainNames[dom]}
+	d.MXAD = p.Bool()
+	d.MXErr = p.Chance(4, 100)
+	d.STS = []string{"none", "testing", "enforce"}[p.Weighted([]int{30, 25, 45})]
+	nmx := 1 + p.Weighted([]int{60, 40})
+	prefs := []uint16{10, 20}
+	if p.Bool() {
+		prefs = []uint16{20, 10}
+	}
+	for i := 0; i < nmx; i++ {
+		d.MXs = append(d.MXs, genMX(p, dom, i, prefs[i]))
+	}
+	return d
+}
+
+func genConfig(p *prng.R, sc *scenario) {
 	sc.MTASTS = p.Chance(50, 100)
 	sc.DANE = p.Chance(50, 100)
 	sc.DNSSEC = p.Chance(40, 100)
@@ -174,44 +241,14 @@ func genScenario(p *prng.R) *scenario {
 	sc.MinMX = p.Weighted([]int{60, 25, 15})
 	sc.AllowOverride = p.Chance(80, 100)
 	sc.Relaxed = p.Chance(80, 100)
-	sc.MXAD = p.Bool()
-	sc.MXErr = p.Chance(4, 100)
-	sc.STS = []string{"none", "testing", "enforce"}[p.Weighted([]int{30, 25, 45})]
-	nmx := 1 + p.Weighted([]int{60, 40})
-	prefs := []uint16{10, 20}
-	if p.Bool() {
-		prefs = []uint16{20, 10}
-	}
-	for i := 0; i < nmx; i++ {
-		m := mxFacts{idx: i, Name: fmt.Sprintf("mx%d.%s", i+1, rcptDomain), Pref: prefs[i]}
-		m.Down = p.Chance(5, 100)
-		m.StartTLS = []string{"ok", "none", "handshake", "reply454"}[p.Weighted([]int{65, 20, 8, 7})]
-		m.Cert = certKinds[p.Weighted([]int{50, 20, 15, 15})]
-		m.ReqTLS = p.Chance(60, 100)
-		m.AAD = p.Chance(70, 100)
-		m.AErr = p.Chance(3, 100)
-		m.TLSA = []string{"absent", "nodata", "servfail", "records"}[p.Weighted([]int{25, 5, 8, 62})]
-		m.TLSAAD = p.Chance(85, 100)
-		if m.TLSA == "records" {
-			n := 1 + p.Weighted([]int{65, 35})
-			for j := 0; j < n; j++ {
-				r := tlsaRec{}
-				r.Usage = []uint8{0, 1, 2, 3, 4}[p.Weighted([]int{5, 8, 30, 50, 7})]
-				r.Sel = []uint8{0, 1, 2}[p.Weighted([]int{35, 60, 5})]
-				r.MT = []uint8{0, 1, 2, 3}[p.Weighted([]int{10, 65, 20, 5})]
-				switch r.Usage {
-				case 2:
-					r.Data = []string{"inter", "strangerCA", "leaf"}[p.Weighted([]int{65, 25, 10})]
-				default:
-					r.Data = []string{"leaf", "stranger", "inter"}[p.Weighted([]int{65, 25, 10})]
-				}
-				m.TLSARecs = append(m.TLSARecs, r)
-			}
-		}
-		m.STSMatch = p.Chance(70, 100)
-		m.DotCode = []int{250, 451, 554}[p.Weighted([]int{90, 5, 5})]
-		sc.MXs = append(sc.MXs, m)
-	}
+}
+
+// genScenario: the statement's quantifier - one recipient domain, 1-2 MX
+// candidates, a history of 1-3 messages.
+func genScenario(p *prng.R) *scenario {
+	sc := &scenario{}
+	genConfig(p, sc)
+	sc.Domains = []domainFacts{genDomain(p, 0)}
 	nmsg := 1 + p.Weighted([]int{25, 40, 35})
 	for i := 0; i < nmsg; i++ {
 		sc.Msgs = append(sc.Msgs, msgFlags{Req: p.Chance(25, 100), Ovr: p.Chance(30, 100), Quar: p.Chance(8, 100)})
@@ -337,27 +374,27 @@ func (sc *scenario) overrideEffective(f msgFlags) bool { return f.Ovr && sc.Allo
 // RRset is DNSSEC-signed => dnssec. Deliberately NOT conditioned on the
 // corresponding policy module being enabled (lenient where the statement is
 // silent).
-func (sc *scenario) mxAuthLevel(m *mxFacts) int {
+func mxAuthLevel(d *domainFacts, m *mxFacts) int {
 	lvl := 0
-	if sc.STS != "none" && m.STSMatch {
+	if d.STS != "none" && m.STSMatch {
 		lvl = 1
 	}
-	if sc.MXAD {
+	if d.MXAD {
 		lvl = 2
 	}
 	return lvl
 }
 
 // allowed is the reference: may content of a message with flags f be sent to
-// MX m over a connection with TLS state tlsOn? Returns the names of the
-// unsatisfied requirements (empty = allowed). ignoreDANE evaluates everything
-// but the DANE requirement (used to decide whether a discovery failure is the
-// only obstacle).
-func (sc *scenario) allowed(f msgFlags, m *mxFacts, tlsOn bool, ignoreDANE bool) (unsat []string) {
+// MX m of domain d over a connection with TLS state tlsOn? Returns the names
+// of the unsatisfied requirements (empty = allowed). ignoreDANE evaluates
+// everything but the DANE requirement (used to decide whether a discovery
+// failure is the only obstacle).
+func (sc *scenario) allowed(f msgFlags, d *domainFacts, m *mxFacts, tlsOn bool, ignoreDANE bool) (unsat []string) {
 	if f.Quar {
 		return []string{"quarantined"}
 	}
-	if sc.MXErr {
+	if d.MXErr {
 		// the MX RRset could not be obtained at all: nothing may be sent anywhere
 		unsat = append(unsat, "mx-lookup-failed")
 	}
@@ -376,10 +413,10 @@ func (sc *scenario) allowed(f msgFlags, m *mxFacts, tlsOn bool, ignoreDANE bool)
 			tlsLevel = 2
 		}
 	}
-	mxLevel := sc.mxAuthLevel(m)
+	mxLevel := mxAuthLevel(d, m)
 
 	if !sc.overrideEffective(f) {
-		if sc.MTASTS && sc.STS == "enforce" {
+		if sc.MTASTS && d.STS == "enforce" {
 			switch {
 			case !m.STSMatch:
 				unsat = append(unsat, "mtasts-enforce-mx-not-in-policy")
@@ -426,14 +463,17 @@ func (sc *scenario) allowed(f msgFlags, m *mxFacts, tlsOn bool, ignoreDANE bool)
 	return unsat
 }
 
-// forbiddenExists: is there any (message, MX, reachable TLS state) the oracle
-// would forbid? (non-triviality rule)
+// forbiddenExists: is there any (message, MX of one of its recipient domains,
+// TLS state) the oracle would forbid? (non-triviality rule)
 func (sc *scenario) forbiddenExists() bool {
 	for _, f := range sc.Msgs {
-		for i := range sc.MXs {
-			for _, t := range []bool{false, true} {
-				if len(sc.allowed(f, &sc.MXs[i], t, false)) > 0 {
-					return true
+		for _, di := range f.rcpts() {
+			d := &sc.Domains[di]
+			for i := range d.MXs {
+				for _, t := range []bool{false, true} {
+					if len(sc.allowed(f, d, &d.MXs[i], t, false)) > 0 {
+						return true
+					}
 				}
 			}
 		}
@@ -447,94 +487,112 @@ type nopLogger struct{}
 
 func (nopLogger) Printf(string, ...interface{}) {}
 
+type serverRef struct {
+	dom, mx int
+	srv     *smtpd.Server
+}
+
 type world struct {
 	sc      *scenario
-	servers []*smtpd.Server
+	servers []serverRef
 	dnsSrv  *mockdns.Server
 	tgt     *remote.Target
 	logMu   sync.Mutex
 	logs    []string
-	dials   map[string]int
 }
 
 func (w *world) close() {
 	if w.tgt != nil {
 		w.tgt.Close()
+		w.tgt = nil
 	}
 	for _, s := range w.servers {
-		if s != nil {
-			s.Close()
-		}
+		s.srv.Close()
 	}
 	if w.dnsSrv != nil {
 		w.dnsSrv.Close()
+		w.dnsSrv = nil
 	}
 }
 
 func buildWorld(sc *scenario) (*world, error) {
 	p := getPKI()
-	w := &world{sc: sc, dials: map[string]int{}}
+	w := &world{sc: sc}
 	zones := map[string]mockdns.Zone{}
-	dom := mockdns.Zone{AD: sc.MXAD}
-	if sc.MXErr {
-		dom.Err = errors.New("c05: scripted SERVFAIL")
-	}
 	byName := map[string]*smtpd.Server{}
-	for i := range sc.MXs {
-		m := &sc.MXs[i]
-		dom.MX = append(dom.MX, net.MX{Host: m.Name + ".", Pref: m.Pref})
-		az := mockdns.Zone{AD: m.AAD, A: []string{"127.0.0.1"}}
-		if m.AErr {
-			az.Err = errors.New("c05: scripted SERVFAIL")
+	down := map[string]bool{}
+	for di := range sc.Domains {
+		d := &sc.Domains[di]
+		dom := mockdns.Zone{AD: d.MXAD}
+		if d.MXErr {
+			dom.Err = errors.New("c05: scripted SERVFAIL")
 		}
-		zones[m.Name+"."] = az
-		tn := "_25._tcp." + m.Name + "."
-		switch m.TLSA {
-		case "nodata":
-			zones[tn] = mockdns.Zone{AD: m.TLSAAD}
-		case "servfail":
-			zones[tn] = mockdns.Zone{AD: m.TLSAAD, Err: errors.New("c05: scripted SERVFAIL")}
-		case "records":
-			var rrs []miekgdns.RR
-			for _, r := range m.TLSARecs {
-				rrs = append(rrs, &miekgdns.TLSA{
-					Hdr:   miekgdns.RR_Header{Name: tn, Class: miekgdns.ClassINET, Rrtype: miekgdns.TypeTLSA, Ttl: 9999},
-					Usage: r.Usage, Selector: r.Sel, MatchingType: r.MT, Certificate: m.recData(r),
-				})
+		for i := range d.MXs {
+			m := &d.MXs[i]
+			dom.MX = append(dom.MX, net.MX{Host: m.Name + ".", Pref: m.Pref})
+			az := mockdns.Zone{AD: m.AAD, A: []string{"127.0.0.1"}}
+			if m.AErr {
+				az.Err = errors.New("c05: scripted SERVFAIL")
 			}
-			zones[tn] = mockdns.Zone{AD: m.TLSAAD, Misc: map[miekgdns.Type][]miekgdns.RR{miekgdns.Type(miekgdns.TypeTLSA): rrs}}
-		}
-		cfg := smtpd.Config{Hostname: m.Name, PIPELINING: true, EightBitMIME: true, REQUIRETLS: m.ReqTLS}
-		if m.StartTLS != "none" {
-			cfg.STARTTLS = true
-			crt := p.mx[m.idx].certs[m.Cert]
-			cfg.TLS = &tls.Config{Certificates: []tls.Certificate{crt}}
-			if m.StartTLS != "ok" {
-				cfg.StartTLSBroken = m.StartTLS
-			}
-		}
-		dot := m.DotCode
-		cfg.Script = func(ev smtpd.Event) *smtpd.Action {
-			if ev.Stage == smtpd.StageDot && dot != 250 {
-				enh := "4.3.0"
-				if dot >= 500 {
-					enh = "5.6.0"
+			zones[m.Name+"."] = az
+			tn := "_25._tcp." + m.Name + "."
+			switch m.TLSA {
+			case "nodata":
+				zones[tn] = mockdns.Zone{AD: m.TLSAAD}
+			case "servfail":
+				zones[tn] = mockdns.Zone{AD: m.TLSAAD, Err: errors.New("c05: scripted SERVFAIL")}
+			case "records":
+				var rrs []miekgdns.RR
+				for _, r := range m.TLSARecs {
+					rrs = append(rrs, &miekgdns.TLSA{
+						Hdr:   miekgdns.RR_Header{Name: tn, Class: miekgdns.ClassINET, Rrtype: miekgdns.TypeTLSA, Ttl: 9999},
+						Usage: r.Usage, Selector: r.Sel, MatchingType: r.MT, Certificate: m.recData(r),
+					})
 				}
-				return &smtpd.Action{Code: dot, Enh: enh, Text: []string{"scripted refusal"}}
+				zones[tn] = mockdns.Zone{AD: m.TLSAAD, Misc: map[miekgdns.Type][]miekgdns.RR{miekgdns.Type(miekgdns.TypeTLSA): rrs}}
 			}
-			return nil
+			cfg := smtpd.Config{Hostname: m.Name, PIPELINING: true, EightBitMIME: true, REQUIRETLS: m.ReqTLS}
+			if m.StartTLS != "none" {
+				cfg.STARTTLS = true
+				crt := p.mx[m.idx].certs[m.Cert]
+				cfg.TLS = &tls.Config{Certificates: []tls.Certificate{crt}}
+				if m.StartTLS != "ok" {
+					cfg.StartTLSBroken = m.StartTLS
+				}
+			}
+			dot := m.DotCode
+			cfg.Script = func(ev smtpd.Event) *smtpd.Action {
+				if ev.Stage == smtpd.StageDot && dot != 250 {
+					enh := "4.3.0"
+					if dot >= 500 {
+						enh = "5.6.0"
+					}
+					return &smtpd.Action{Code: dot, Enh: enh, Text: []string{"scripted refusal"}}
+				}
+				return nil
+			}
+			srv, err := smtpd.New(cfg)
+			if err != nil {
+				w.close()
+				return nil, err
+			}
+			w.servers = append(w.servers, serverRef{di, i, srv})
+			byName[m.Name] = srv
+			down[m.Name] = m.Down
 		}
-		srv, err := smtpd.New(cfg)
-		if err != nil {
-			w.close()
-			return nil, err
-		}
-		w.servers = append(w.servers, srv)
-		byName[m.Name] = srv
+		zones[d.Name+"."] = dom
 	}
-	zones[rcptDomain+"."] = dom
 
-	dnsSrv, err := mockdns.NewServerWithLogger(zones, nopLogger{}, false)
+	// mockdns binds a TCP port first and then the same UDP port; the latter may
+	// be taken by another process on a busy machine, so retry.
+	var dnsSrv *mockdns.Server
+	var err error
+	for try := 0; try < 50; try++ {
+		dnsSrv, err = mockdns.NewServerWithLogger(zones, nopLogger{}, false)
+		if err == nil {
+			break
+		}
+	}
 	if err != nil {
 		w.close()
 		return nil, err
@@ -559,24 +617,59 @@ func buildWorld(sc *scenario) (*world, error) {
 
 	var pols []module.MXAuthPolicy
 	if sc.MTASTS {
-		get := func(_ context.Context, domain string) (*mtasts.Policy, error) {
-			if domain != rcptDomain {
+		// gates for the two-domain scenario: a gated domain's fetch returns only
+		// after the fetch for another domain has been started (logical ordering;
+		// the 2 s bound only prevents a hang if that never happens).
+		started := make(chan struct{})
+		var startedOnce sync.Once
+		returned := make(chan struct{})
+		var returnedOnce sync.Once
+		anyGate := false
+		for di := range sc.Domains {
+			anyGate = anyGate || sc.Domains[di].STSGate
+		}
+		get := func(ctx context.Context, domain string) (*mtasts.Policy, error) {
+			var d *domainFacts
+			for di := range sc.Domains {
+				if sc.Domains[di].Name == domain {
+					d = &sc.Domains[di]
+				}
+			}
+			if d == nil {
 				return nil, errors.New("c05: MTA-STS lookup for an unexpected domain " + domain)
 			}
-			if sc.STS == "none" {
+			if anyGate {
+				if d.STSGate {
+					defer returnedOnce.Do(func() { close(returned) })
+					select {
+					case <-started:
+					case <-ctx.Done():
+					case <-time.After(2 * time.Second):
+					}
+				} else {
+					startedOnce.Do(func() { close(started) })
+					select {
+					case <-returned:
+						time.Sleep(20 * time.Millisecond) // widen the window only
+					case <-ctx.Done():
+					case <-time.After(2 * time.Second):
+					}
+				}
+			}
+			if d.STS == "none" {
 				return nil, errors.New("c05: no MTA-STS policy published")
 			}
 			pol := &mtasts.Policy{Mode: mtasts.ModeTesting, MaxAge: 86400}
-			if sc.STS == "enforce" {
+			if d.STS == "enforce" {
 				pol.Mode = mtasts.ModeEnforce
 			}
-			for i := range sc.MXs {
-				if sc.MXs[i].STSMatch {
-					pol.MX = append(pol.MX, sc.MXs[i].Name)
+			for i := range d.MXs {
+				if d.MXs[i].STSMatch {
+					pol.MX = append(pol.MX, d.MXs[i].Name)
 				}
 			}
 			if len(pol.MX) == 0 {
-				pol.MX = []string{"elsewhere." + rcptDomain}
+				pol.MX = []string{"elsewhere." + d.Name}
 			}
 			return pol, nil
 		}
@@ -607,24 +700,18 @@ func buildWorld(sc *scenario) (*world, error) {
 		pols = append(pols, remote.VerifLocalPolicy(module.TLSLevel(sc.MinTLS), module.MXLevel(sc.MinMX)))
 	}
 
-	var dialMu sync.Mutex
 	dialer := func(ctx context.Context, network, addr string) (net.Conn, error) {
 		host, _, err := net.SplitHostPort(addr)
 		if err != nil {
 			return nil, err
 		}
 		host = strings.TrimSuffix(host, ".")
-		dialMu.Lock()
-		w.dials[host]++
-		dialMu.Unlock()
 		srv := byName[host]
 		if srv == nil {
 			return nil, &net.OpError{Op: "dial", Net: "tcp", Err: errors.New("c05: no such host " + host)}
 		}
-		for i := range sc.MXs {
-			if sc.MXs[i].Name == host && sc.MXs[i].Down {
-				return nil, &net.OpError{Op: "dial", Net: "tcp", Err: errors.New("connection refused")}
-			}
+		if down[host] {
+			return nil, &net.OpError{Op: "dial", Net: "tcp", Err: errors.New("connection refused")}
 		}
 		return (&net.Dialer{}).DialContext(ctx, "tcp", srv.Addr())
 	}
@@ -657,13 +744,18 @@ func buildWorld(sc *scenario) (*world, error) {
 	return w, nil
 }
 
-// ---------------------------------------------------------------- driving one history
+// ---------------------------------------------------------------- driving one history (the way target.queue drives its target)
+
+type rcptOutcome struct {
+	Domain string `json:"domain"`
+	Stage  string `json:"failed_at,omitempty"` // "", start, rcpt, body
+	Err    string `json:"err,omitempty"`
+	Class  string `json:"class"` // ok | temporary | permanent | unspecified
+	err    error
+}
 
 type outcome struct {
-	Stage string `json:"failed_at,omitempty"` // "", start, rcpt, body
-	Err   string `json:"err,omitempty"`
-	Class string `json:"class"` // ok | temporary | permanent | unspecified
-	err   error
+	Rcpts []rcptOutcome `json:"rcpts"`
 }
 
 func classify(err error) string {
@@ -683,6 +775,17 @@ func classify(err error) string {
 func token(caseIdx, j int) string { return fmt.Sprintf("VERIFTOKEN-%d-%d-END", caseIdx, j) }
 func sender(j int) string         { return fmt.Sprintf("sender-%d@src.example", j) }
 
+type statusCollector struct {
+	mu sync.Mutex
+	m  map[string]error
+}
+
+func (s *statusCollector) SetStatus(rcpt string, err error) {
+	s.mu.Lock()
+	s.m[rcpt] = err
+	s.mu.Unlock()
+}
+
 func (w *world) deliver(caseIdx, j int, f msgFlags) outcome {
 	ctx, cancel := context.WithTimeout(context.Background(), 120*time.Second)
 	defer cancel()
@@ -694,16 +797,34 @@ func (w *world) deliver(caseIdx, j int, f msgFlags) outcome {
 		TLSRequireOverride: f.Ovr,
 		SMTPOpts:           smtp.MailOptions{RequireTLS: f.Req},
 	}
-	fail := func(stage string, err error) outcome {
-		return outcome{Stage: stage, Err: err.Error(), Class: classify(err), err: err}
+	rc := f.rcpts()
+	out := outcome{Rcpts: make([]rcptOutcome, len(rc))}
+	addrs := make([]string, len(rc))
+	for k, di := range rc {
+		out.Rcpts[k].Domain = w.sc.Domains[di].Name
+		addrs[k] = "rcpt@" + w.sc.Domains[di].Name
 	}
-	d, err := w.tgt.Start(ctx, meta, sender(j))
+	fail := func(k int, stage string, err error) {
+		out.Rcpts[k].Stage, out.Rcpts[k].Err, out.Rcpts[k].Class, out.Rcpts[k].err = stage, err.Error(), classify(err), err
+	}
+	d, err := w.tgt.Start(ctx, meta.DeepCopy(), sender(j))
 	if err != nil {
-		return fail("start", err)
+		for k := range rc {
+			fail(k, "start", err)
+		}
+		return out
 	}
-	if err := d.AddRcpt(ctx, "rcpt@"+rcptDomain, smtp.RcptOptions{}); err != nil {
+	var accepted []int
+	for k := range rc {
+		if err := d.AddRcpt(ctx, addrs[k], smtp.RcptOptions{}); err != nil {
+			fail(k, "rcpt", err)
+		} else {
+			accepted = append(accepted, k)
+		}
+	}
+	if len(accepted) == 0 {
 		d.Abort(ctx)
-		return fail("rcpt", err)
+		return out
 	}
 	hdr := textproto.Header{}
 	hdr.Add("Subject", "c05 "+token(caseIdx, j))
@@ -712,12 +833,23 @@ func (w *world) deliver(caseIdx, j int, f msgFlags) outcome {
 		hdr.Add("TLS-Required", "No")
 	}
 	body := buffer.MemoryBuffer{Slice: []byte("content of " + token(caseIdx, j) + "\r\n")}
-	if err := d.Body(ctx, hdr, body); err != nil {
-		d.Abort(ctx)
-		return fail("body", err)
+	sc := &statusCollector{m: map[string]error{}}
+	d.(module.PartialDelivery).BodyNonAtomic(ctx, sc, hdr, body)
+	allFailed := true
+	for _, k := range accepted {
+		if e := sc.m[addrs[k]]; e != nil {
+			fail(k, "body", e)
+		} else {
+			out.Rcpts[k].Class = "ok"
+			allFailed = false
+		}
 	}
-	d.Commit(ctx)
-	return outcome{Class: "ok"}
+	if allFailed {
+		d.Abort(ctx)
+	} else {
+		d.Commit(ctx)
+	}
+	return out
 }
 
 // ---------------------------------------------------------------- the monitor
@@ -743,8 +875,10 @@ func msgOfSender(from string) int {
 
 func (w *world) dataEvents(caseIdx int) (evs []dataEvent, problems []string) {
 	sc := w.sc
-	for i, srv := range w.servers {
-		for _, c := range srv.Transcript() {
+	for _, sr := range w.servers {
+		d := &sc.Domains[sr.dom]
+		m := &d.MXs[sr.mx]
+		for _, c := range sr.srv.Transcript() {
 			opened := -1
 			for _, t := range c.Txns {
 				if opened < 0 {
@@ -764,11 +898,11 @@ func (w *world) dataEvents(caseIdx int) (evs []dataEvent, problems []string) {
 					msg = msgOfSender(t.From)
 				}
 				if msg < 0 || msg >= len(sc.Msgs) {
-					problems = append(problems, fmt.Sprintf("payload on %s conn %d not attributable to a message", sc.MXs[i].Name, c.ID))
+					problems = append(problems, fmt.Sprintf("payload on %s conn %d not attributable to a message", m.Name, c.ID))
 					continue
 				}
-				ev := dataEvent{MX: sc.MXs[i].Name, Conn: c.ID, Txn: t.N, TLS: t.TLS, Msg: msg, OpenedBy: opened, Complete: t.DataReceived}
-				ev.Unsat = sc.allowed(sc.Msgs[msg], &sc.MXs[i], t.TLS, false)
+				ev := dataEvent{MX: m.Name, Conn: c.ID, Txn: t.N, TLS: t.TLS, Msg: msg, OpenedBy: opened, Complete: t.DataReceived}
+				ev.Unsat = sc.allowed(sc.Msgs[msg], d, m, t.TLS, false)
 				evs = append(evs, ev)
 			}
 		}
@@ -790,22 +924,23 @@ func connOrigin(sc *scenario, ev dataEvent) string {
 	return "reused-connection"
 }
 
-// discoveryOnlyObstacle: for message f every candidate MX is reachable, would
-// be acceptable but for a TLSA discovery failure, and has such a failure.
-func (sc *scenario) discoveryOnlyObstacle(f msgFlags) (bool, string) {
-	if f.Quar || sc.MXErr || !sc.DANE || sc.overrideEffective(f) {
+// discoveryOnlyObstacle: for message f and recipient domain d every candidate
+// MX is reachable, would be acceptable but for a TLSA discovery failure, and
+// has such a failure.
+func (sc *scenario) discoveryOnlyObstacle(f msgFlags, d *domainFacts) (bool, string) {
+	if f.Quar || d.MXErr || !sc.DANE || sc.overrideEffective(f) {
 		return false, ""
 	}
 	kind := ""
-	for i := range sc.MXs {
-		m := &sc.MXs[i]
+	for i := range d.MXs {
+		m := &d.MXs[i]
 		if m.Down || m.DotCode != 250 || (m.StartTLS != "ok" && m.StartTLS != "none") {
 			return false, ""
 		}
 		if m.tlsaDiscovery() != "fail" {
 			return false, ""
 		}
-		if len(sc.allowed(f, m, m.StartTLS == "ok", true)) > 0 {
+		if len(sc.allowed(f, d, m, m.StartTLS == "ok", true)) > 0 {
 			return false, ""
 		}
 		k := "tlsa-servfail"
@@ -823,17 +958,21 @@ func (sc *scenario) discoveryOnlyObstacle(f msgFlags) (bool, string) {
 
 func shapeOf(sc *scenario) string {
 	var b strings.Builder
-	fmt.Fprintf(&b, "sts=%v/%s dane=%v dnssec=%v local=%v/%d/%d ao=%v rx=%v mxad=%v mxerr=%v", sc.MTASTS, sc.STS, sc.DANE, sc.DNSSEC, sc.Local, sc.MinTLS, sc.MinMX, sc.AllowOverride, sc.Relaxed, sc.MXAD, sc.MXErr)
-	for i := range sc.MXs {
-		m := &sc.MXs[i]
-		au, da := false, false
-		if m.TLSA == "records" {
-			au, da = m.daneVerdict()
+	fmt.Fprintf(&b, "sts=%v dane=%v dnssec=%v local=%v/%d/%d ao=%v rx=%v", sc.MTASTS, sc.DANE, sc.DNSSEC, sc.Local, sc.MinTLS, sc.MinMX, sc.AllowOverride, sc.Relaxed)
+	for di := range sc.Domains {
+		d := &sc.Domains[di]
+		fmt.Fprintf(&b, " || %s mxad=%v mxerr=%v gate=%v", d.STS, d.MXAD, d.MXErr, d.STSGate)
+		for i := range d.MXs {
+			m := &d.MXs[i]
+			au, da := false, false
+			if m.TLSA == "records" {
+				au, da = m.daneVerdict()
+			}
+			fmt.Fprintf(&b, " | %s %s down=%v rt=%v disc=%s usable=%v match=%v sts=%v dot=%d", m.StartTLS, m.Cert, m.Down, m.ReqTLS, m.tlsaDiscovery(), au, da, m.STSMatch, m.DotCode)
 		}
-		fmt.Fprintf(&b, " | %s %s down=%v rt=%v disc=%s usable=%v match=%v sts=%v dot=%d", m.StartTLS, m.Cert, m.Down, m.ReqTLS, m.tlsaDiscovery(), au, da, m.STSMatch, m.DotCode)
 	}
 	for _, f := range sc.Msgs {
-		b.WriteString(" > " + f.String())
+		fmt.Fprintf(&b, " > %s%v", f.String(), f.rcpts())
 	}
 	return b.String()
 }
@@ -841,19 +980,22 @@ func shapeOf(sc *scenario) string {
 const (
 	groupRandom   = 0
 	groupDirected = 1_000_000
-	nDirected     = 7
+	nDirected     = 9
 )
 
 // directed scenarios: the histories the statement singles out (reuse of a
-// cached connection by a message with different requirements), generated for
-// every base policy so that each tier certainly contains them.
+// cached connection by a message with different requirements), plus the
+// situations found to matter while reading the code (an MX candidate given up
+// while its lookups are in flight; one message for two recipient domains).
+// Generated in every tier so that each run certainly contains them.
 func directedScenario(k int, p *prng.R) *scenario {
 	sc := genScenario(p)
-	sc.MXErr = false
 	sc.AllowOverride = true
 	sc.Relaxed = true
-	sc.MXs = sc.MXs[:1]
-	m := &sc.MXs[0]
+	d := &sc.Domains[0]
+	d.MXErr = false
+	d.MXs = d.MXs[:1]
+	m := &d.MXs[0]
 	m.Down, m.AErr, m.DotCode, m.ReqTLS = false, false, 250, true
 	switch k % nDirected {
 	case 0: // plaintext-only MX, min TLS encrypted; override message first
@@ -861,7 +1003,7 @@ func directedScenario(k int, p *prng.R) *scenario {
 		m.StartTLS = "none"
 		sc.Msgs = []msgFlags{{Ovr: true}, {}, {}}
 	case 1: // MTA-STS enforce, self-signed / mismatching MX; override first
-		sc.MTASTS, sc.STS, sc.Local = true, "enforce", p.Bool()
+		sc.MTASTS, d.STS, sc.Local = true, "enforce", p.Bool()
 		m.StartTLS, m.Cert, m.STSMatch = "ok", certKinds[1+p.Intn(3)], p.Bool()
 		sc.Msgs = []msgFlags{{Ovr: true}, {}}
 	case 2: // DANE mismatch / discovery failure; override first
@@ -874,7 +1016,7 @@ func directedScenario(k int, p *prng.R) *scenario {
 		}
 		sc.Msgs = []msgFlags{{Ovr: true}, {}}
 	case 3: // ordinary message pools an unauthenticated connection, REQUIRETLS follows
-		sc.MTASTS, sc.STS, sc.DANE, sc.Local, sc.MinTLS, sc.MinMX = true, "testing", false, true, p.Intn(2), 0
+		sc.MTASTS, d.STS, sc.DANE, sc.Local, sc.MinTLS, sc.MinMX = true, "testing", false, true, p.Intn(2), 0
 		m.StartTLS, m.Cert, m.STSMatch = []string{"ok", "none"}[p.Intn(2)], certKinds[1+p.Intn(3)], true
 		sc.Msgs = []msgFlags{{}, {Req: true}, {}}
 	case 4: // quarantined between two ordinary messages
@@ -890,10 +1032,10 @@ func directedScenario(k int, p *prng.R) *scenario {
 		// the fallback MX has a TLSA mismatch / lookup failure and must not profit from
 		// the first MX's TLSA answer
 		sc.DANE = true
-		sc.MTASTS, sc.STS = p.Bool(), "enforce"
+		sc.MTASTS, d.STS = p.Bool(), "enforce"
 		sc.Local, sc.MinTLS, sc.MinMX = p.Bool(), p.Intn(2), 0
 		first := *m
-		first.Name, first.idx, first.Pref = "mx1."+rcptDomain, 0, 10
+		first.Name, first.idx, first.Pref = mxName(0, 0), 0, 10
 		first.AAD, first.TLSAAD, first.STSMatch = true, true, true
 		switch p.Intn(3) {
 		case 0:
@@ -909,7 +1051,7 @@ func directedScenario(k int, p *prng.R) *scenario {
 			first.TLSA, first.TLSARecs = "records", []tlsaRec{{1, 1, 1, "leaf"}}
 		}
 		second := *m
-		second.Name, second.idx, second.Pref = "mx2."+rcptDomain, 1, 20
+		second.Name, second.idx, second.Pref = mxName(0, 1), 1, 20
 		second.StartTLS, second.Cert, second.STSMatch = "ok", certKinds[p.Intn(4)], true
 		second.AAD, second.TLSAAD = true, true
 		if p.Bool() {
@@ -917,8 +1059,54 @@ func directedScenario(k int, p *prng.R) *scenario {
 		} else {
 			second.TLSA, second.TLSARecs = "records", []tlsaRec{{3, 1, 1, "stranger"}}
 		}
-		sc.MXs = []mxFacts{first, second}
+		d.MXs = []mxFacts{first, second}
 		sc.Msgs = []msgFlags{{}, {}}
+	case 7: // one REQUIRETLS message for two recipient domains (outside the statement's
+		// quantifier, inside its invariant): the first domain's MX is fine but does not
+		// advertise REQUIRETLS (relaxed mode applies), the second domain's MX cannot
+		// satisfy REQUIRETLS.
+		sc.MTASTS, sc.DANE, sc.DNSSEC, sc.Local = true, false, p.Bool(), p.Bool()
+		sc.MinTLS, sc.MinMX = p.Intn(2), 0
+		d.STS, d.MXAD = "testing", p.Bool()
+		m.StartTLS, m.Cert, m.STSMatch, m.ReqTLS = "ok", "valid", true, false
+		d2 := genDomain(p, 1)
+		d2.MXErr = false
+		d2.MXs = d2.MXs[:1]
+		m2 := &d2.MXs[0]
+		m2.Down, m2.AErr, m2.DotCode = false, false, 250
+		d2.STS = []string{"none", "testing"}[p.Intn(2)]
+		switch p.Intn(3) {
+		case 0:
+			m2.StartTLS = "none"
+		case 1:
+			m2.StartTLS, m2.Cert = "ok", certKinds[1+p.Intn(3)]
+		case 2:
+			m2.StartTLS, m2.Cert, m2.STSMatch, d2.MXAD = "ok", "valid", false, false
+		}
+		sc.Domains = append(sc.Domains, d2)
+		sc.Msgs = []msgFlags{{Req: true, Rcpts: []int{0, 1}}}
+		if p.Bool() {
+			sc.Msgs = append(sc.Msgs, msgFlags{Rcpts: []int{1}})
+		}
+	case 8: // one message for two recipient domains: the first domain's MX lookup fails at
+		// once while its MTA-STS fetch is still running; the second domain publishes an
+		// enforce policy its MX does not satisfy.
+		sc.MTASTS, sc.DANE, sc.DNSSEC, sc.Local = true, false, false, p.Bool()
+		sc.MinTLS, sc.MinMX = p.Intn(2), 0
+		d.MXErr, d.STSGate = true, true
+		d.STS = []string{"none", "testing"}[p.Intn(2)]
+		d2 := genDomain(p, 1)
+		d2.MXErr, d2.STS = false, "enforce"
+		d2.MXs = d2.MXs[:1]
+		m2 := &d2.MXs[0]
+		m2.Down, m2.AErr, m2.DotCode, m2.StartTLS = false, false, 250, "ok"
+		if p.Bool() {
+			m2.STSMatch, m2.Cert = false, certKinds[p.Intn(4)]
+		} else {
+			m2.STSMatch, m2.Cert = true, certKinds[1+p.Intn(3)]
+		}
+		sc.Domains = append(sc.Domains, d2)
+		sc.Msgs = []msgFlags{{Rcpts: []int{0, 1}}}
 	}
 	return sc
 }
@@ -928,8 +1116,9 @@ func TestVerif(t *testing.T) {
 	defer r.Close()
 	getPKI()
 
-	run := func(idx int, id string, sc *scenario) {
+	run := func(idx int, id string, gen func() *scenario) {
 		r.Run(idx, id, func(c *rep.Case) {
+			sc := gen()
 			w, err := buildWorld(sc)
 			if err != nil {
 				c.Inconclusive("cannot build the scenario world: " + err.Error())
@@ -961,8 +1150,8 @@ func TestVerif(t *testing.T) {
 			w.tgt = nil
 			leaked := 0
 			for _, s := range w.servers {
-				if !s.WaitIdle(300 * time.Millisecond) {
-					leaked += s.ConnCount()
+				if !s.srv.WaitIdle(300 * time.Millisecond) {
+					leaked += s.srv.ConnCount()
 				}
 			}
 			evs, problems := w.dataEvents(idx)
@@ -979,6 +1168,10 @@ func TestVerif(t *testing.T) {
 					lg = lg[len(lg)-120:]
 				}
 				return map[string]any{"scenario": sc, "outcomes": outs, "data_events": evs, "maddy_log": lg}
+			}
+			multi := ""
+			if len(sc.Domains) > 1 {
+				multi = "/two-recipient-domains"
 			}
 
 			// ---- rule 1: content only over allowed connections
@@ -1002,42 +1195,61 @@ func TestVerif(t *testing.T) {
 				if ev.TLS {
 					tl = "tls"
 				}
-				sig := fmt.Sprintf("content-sent-over-forbidden-connection/%s/%s/%s/msg=%s", ev.Unsat[0], tl, origin, f.String())
+				sig := fmt.Sprintf("content-sent-over-forbidden-connection/%s/%s/%s/msg=%s%s", ev.Unsat[0], tl, origin, f.String(), multi)
 				c.Violation(sig, fmt.Sprintf("content of message %d (%s) reached %s over a %s connection (%s) although the policy in force is not satisfied: %v",
 					ev.Msg, f.String(), ev.MX, tl, origin, ev.Unsat), witness())
 			}
 
 			// ---- rule 2: discovery failure => deferred (temporary), never permanent
 			for j, f := range sc.Msgs {
-				o := outs[j]
 				r.Count("messages", 1)
-				r.Count("message_outcome_"+o.Class, 1)
 				if f.Quar {
 					r.Count("quarantined_messages", 1)
 				}
-				if o.err == nil {
-					continue
-				}
-				deferOK := exterrors.IsTemporaryOrUnspec(o.err)
-				if only, kind := sc.discoveryOnlyObstacle(f); only {
-					r.Count("discovery_failures_judged", 1)
-					if !deferOK {
-						c.Violation("discovery-failure-not-deferred/"+kind+"/msg="+f.String(),
-							fmt.Sprintf("message %d (%s): TLSA discovery fails for every MX candidate and is the only obstacle, but the delivery error is permanent: %v", j, f.String(), o.err), witness())
+				for k, di := range f.rcpts() {
+					o := outs[j].Rcpts[k]
+					d := &sc.Domains[di]
+					r.Count("recipient_outcome_"+o.Class, 1)
+					if o.err == nil {
+						continue
 					}
-				}
-				if sc.MXErr && !f.Quar && !sc.overrideEffective(f) && (sc.DANE || sc.DNSSEC) {
-					r.Count("discovery_failures_judged", 1)
-					if !deferOK {
-						c.Violation("discovery-failure-not-deferred/mx-servfail/msg="+f.String(),
-							fmt.Sprintf("message %d (%s): the MX lookup fails with SERVFAIL but the delivery error is permanent: %v", j, f.String(), o.err), witness())
+					deferOK := exterrors.IsTemporaryOrUnspec(o.err)
+					if only, kind := sc.discoveryOnlyObstacle(f, d); only {
+						r.Count("discovery_failures_judged", 1)
+						if !deferOK {
+							c.Violation("discovery-failure-not-deferred/"+kind+"/msg="+f.String()+multi,
+								fmt.Sprintf("message %d (%s) to %s: TLSA discovery fails for every MX candidate and is the only obstacle, but the delivery error is permanent: %v", j, f.String(), d.Name, o.err), witness())
+						}
+					}
+					if d.MXErr && !f.Quar && !sc.overrideEffective(f) && (sc.DANE || sc.DNSSEC) {
+						r.Count("discovery_failures_judged", 1)
+						if !deferOK {
+							c.Violation("discovery-failure-not-deferred/mx-servfail/msg="+f.String()+multi,
+								fmt.Sprintf("message %d (%s) to %s: the MX lookup fails with SERVFAIL but the delivery error is permanent: %v", j, f.String(), d.Name, o.err), witness())
+						}
 					}
 				}
 			}
 			if leaked > 0 {
-				r.Count("observation_connections_left_open_after_target_close(not judged)", int64(leaked))
+				// observation only (DESIGN C19/X): a pooled connection fetched for a
+				// REQUIRETLS message is dropped without being closed or returned
+				anyReq := false
+				for j, f := range sc.Msgs {
+					if f.Req && !f.Quar && j > 0 {
+						anyReq = true
+					}
+				}
+				if anyReq {
+					r.Count("observation_connections_left_open_after_target_close/history_has_later_requiretls_message(not judged)", int64(leaked))
+				} else {
+					r.Count("observation_connections_left_open_after_target_close/other(not judged)", int64(leaked))
+					r.Sample(map[string]any{"left_open_without_requiretls": sc, "outcomes": outs, "data_events": evs})
+				}
 			}
 			r.Count("histories", 1)
+			if len(sc.Domains) > 1 {
+				r.Count("histories_two_recipient_domains", 1)
+			}
 			nt := sc.forbiddenExists()
 			if nt && len(evs) > 0 {
 				r.Count("histories_with_forbidden_combination_and_data", 1)
@@ -1049,15 +1261,16 @@ func TestVerif(t *testing.T) {
 		})
 	}
 
-	n := r.N(480, 24000)
+	n := r.N(1500, 24000)
 	for i := 0; i < n; i++ {
-		p := prng.New(r.Seed(), uint64(i), "c05")
-		run(groupRandom+i, fmt.Sprintf("random-%d", i), genScenario(p))
+		run(groupRandom+i, fmt.Sprintf("random-%d", i), func() *scenario {
+			return genScenario(prng.New(r.Seed(), uint64(i), "c05"))
+		})
 	}
-	nd := r.N(140, 7000)
+	nd := r.N(360, 7200)
 	for k := 0; k < nd; k++ {
-		p := prng.New(r.Seed(), uint64(k), "c05-directed")
-		run(groupDirected+k, fmt.Sprintf("directed-%d-%d", k%nDirected, k), directedScenario(k, p))
+		run(groupDirected+k, fmt.Sprintf("directed-%d-%d", k%nDirected, k), func() *scenario {
+			return directedScenario(k, prng.New(r.Seed(), uint64(k), "c05-directed"))
+		})
 	}
-	_ = sort.Strings
 }
